@@ -1103,7 +1103,19 @@ def rule_M2(prog, fixture=False):
                             lazies[key][2].update(srcs)
                         else:
                             lazies[key] = [g, pol, set(srcs)]
+        muts = {x["name"] for x in cj.get("fields", []) if x.get("mutable")}
         for (cm, flag), (getter, pol, srcs) in sorted(lazies.items()):
+            # a first-call initialisation (if (!_started) { _state = ...; _started = true; }) is not a derived value: the flag is
+            # never turned back.  Lazy = computed in a const member / into a mutable member, or marked again somewhere.
+            remarked = False
+            for m in fs:
+                if m.name.rsplit("::", 1)[-1] == cls.rsplit("::", 1)[-1].split("<")[0]:
+                    continue
+                for (a, rhs, op) in _m2_assignments(m, flag):
+                    if not (rhs is not None and _m2_bool_lit(rhs) == (not pol)):
+                        remarked = True
+            if not (getter.get("const") or cm in muts or remarked):
+                continue
             nlazy += 1
             rel = prog.rel(getter.file)
             extra = {"props": _m2_props(rel)}
